@@ -151,8 +151,10 @@ def install_env(vc):
         # Dumper.style's contract (scenario Dumper.style): the text itself or the text inside the dumper's own styling
         if v.mode == "native":
             return _ORIG["style"](self_, text, **style)
-        b = v.fresh_bool("styled")
-        return If(b, lift(STYLE_OPEN) + lift(text) + lift(STYLE_CLOSE), lift(text))
+        # flat over-approximation of both cases: own-styling prefix/suffix (possibly empty) around the text
+        pre, post = v.ex.fresh("str", "style_pre"), v.ex.fresh("str", "style_post")
+        _assume(v, And(Or(pre == "", pre == STYLE_OPEN), Or(post == "", post == STYLE_CLOSE)))
+        return pre + lift(text) + post
 
     def format_address_model(v, addr):
         if v.mode == "native":
